@@ -17,6 +17,10 @@ CHECKS = {
    technique='explicit enumeration of read/cache histories x server-reply deviations on the real remote.Blob over an in-memory registry; stateless schedule exploration (preemption/deviation bounded, HB-state caching) of concurrent readers; exhaustive regionSet.add sequences vs a bitmap',
    text='Every (size, chunk, prefetch-chunk, cache) config x every ReadAt(off,len)/Cache/Check/Refresh history of depth<=2 x every assignment of a non-default server personality to <=1 (quick) / <=2 (thorough) requests; 2-3 concurrent readers/prefetchers/refreshers with cache-loss and server deviations under all schedules within the bound; oracle: returned bytes equal the blob or error, FetchedSize equals the union of committed chunks, never exceeds size, never decreases.',
    note='lib/memreg replaces the network; sequential consistency at instrumented operations; watched unsynchronised fields httpFetcher.header/url; map iteration sorted'),
+ 'C13': dict(level='model_checking', design='3/C13',
+   technique='stateless schedule exploration (preemption- and deviation-bounded DFS with happens-before state caching) of the real BackgroundTaskManager under a cooperative scheduler with virtual time',
+   text='All schedules within the bound of 2-4 driver threads (prioritized Do/Done pairs, concurrent InvokeBackgroundTask callers) with harness bodies that notice cancellation 0-2 steps late; oracle on ghost state: no start while a prioritized task is in progress/in its silence period, cancellation reaches running bodies, concurrency bound, no self-overlap, nothing running after the invocation returns, every invocation completes.',
+   note='sequential consistency at instrumented operations; decision..spawn atomic (no sync op in between); x/sync/semaphore instrumented copy; silence period and context timeout on the virtual clock'),
 }
 
 NOT_YET = 'check not built yet in this session (work in progress; see DESIGN.md section 3)'
